@@ -320,3 +320,56 @@ def refused_pivot(rng, route=None):
                     "subnet_scan_cost": 1, "process_scan_cost": 1},
         sensitive=sensitive, hosts=hosts, firewall=firewall,
         step_limit=None, bounds=None)
+
+
+def two_entrances(rng, route=None):
+    """A chain of 4-6 subnets whose two ends are both public, every host
+    exploitable and the firewalls open along the chain: entered from one end
+    only, the subnets near the other end are approached "from behind" (they
+    are closer to the internet than the subnet they are discovered from)."""
+    route = route or rng.choice(["yaml", "dict"])
+    k = rng.randint(4, 6)
+    sizes = [rng.randint(1, 2) for _ in range(k)]
+    N = k + 1
+    topo = [[1 if i == j else 0 for j in range(N)] for i in range(N)]
+    for a in range(1, k):
+        topo[a][a + 1] = topo[a + 1][a] = 1
+    topo[0][1] = topo[1][0] = 1
+    topo[0][k] = topo[k][0] = 1
+    srvs = SRV_NAMES[:rng.randint(1, 2)]
+    oss = OS_NAMES[:rng.randint(1, 2)]
+    procs = PROC_NAMES[:rng.randint(1, 2)]
+    exploits = {"e_0": {"service": srvs[0], "os": None,
+                        "prob": rng.choice([1.0, 1.0, 0.7]),
+                        "cost": rng.choice(COSTS), "access": 2}}
+    privescs = {}
+    if rng.random() < 0.4:
+        exploits["e_0"]["access"] = 1
+        privescs["pe_0"] = {"process": procs[0], "os": None, "prob": 1.0,
+                            "cost": rng.choice(COSTS), "access": 2}
+    addrs = [(s + 1, h) for s in range(k) for h in range(sizes[s])]
+    sens = rng.sample([a for a in addrs if 1 < a[0] < k], 1) + \
+        rng.sample(addrs, rng.randint(0, 1))
+    sensitive = {a: rng.choice([100, 10, 42.5]) for a in sens}
+    hosts = {}
+    for a in addrs:
+        hosts[a] = {"os": rng.choice(oss), "services": list(srvs),
+                    "processes": list(procs),
+                    "value": 0.0 if a in sensitive else rng.choice(VALUES),
+                    "discovery_value": (rng.choice([0, 1, 2.5, 6])
+                                        if route == "dict" else 0.0),
+                    "firewall": {}}
+    firewall = {}
+    for a in range(N):
+        for b in range(N):
+            if a != b and topo[a][b]:
+                firewall[(a, b)] = [] if b == 0 else list(srvs)
+    return Spec(
+        name=f"synth-{route}", origin=f"synth:{route}",
+        subnets=[1] + sizes, topology=topo, os=oss, services=srvs,
+        processes=procs, exploits=exploits, privescs=privescs,
+        scan_costs={"service_scan_cost": 1, "os_scan_cost": 1,
+                    "subnet_scan_cost": rng.choice(SCAN_COSTS),
+                    "process_scan_cost": 1},
+        sensitive=sensitive, hosts=hosts, firewall=firewall,
+        step_limit=None, bounds=None)
